@@ -18,9 +18,17 @@ shim returning that class from that call and records the return code of the encl
 the faulted rank and whether all ranks come back from that call (watchdog).
 Model prediction (Fault.predict_all on the observed stack) must contain the observed return code.
 ORACLE (property, on the implementation's own observations): the faulted rank's API call -- or a
-request status delivered by the completing wait -- is non-zero, and no rank stays blocked in the call.
+request status delivered by the completing wait -- is non-zero, and no rank stays blocked in the call
+(per-API-call watchdog inside the harness, a hang must repeat with three times the patience).
+
+Violation keys: `site:<file>:<function>:<MPI call>[#n]:class=<C>` (error lost in the function that issues the
+call), `link:<file>:<caller>:<callee>[#n]:class=<C>` (lost by a caller on the way up: first level at which the
+model predicts a non-error), `blocked:[faulted-rank:]site:...`, `crash:site:...`.
+After a change of /repo that alters the behaviour of a site (e.g. a `fix:` commit) the static per-site lemmas
+must be regenerated: `python3 -m checks.C11 --regen` (rewrites part 2 of coq/Proofs_Fault.v,
+coq/props/C11.spec, coq/Properties_C11.v from the model's current verdicts; part 1's bad_link_ids by hand).
 """
-import os, re, json, time, threading, subprocess, hashlib
+import os, sys, re, json, time, threading
 from concurrent.futures import ThreadPoolExecutor
 from pnc import common as C
 
@@ -340,7 +348,7 @@ def run(ctx):
 
     # ---------------- translator (site list for the stack matching); the proof build re-runs it
     sites_json = os.path.join(wd, 'sites.json')
-    rc, out = C.sh([os.sys.executable, os.path.join(C.VERIF, 'tools', 'tr_iosites.py'), lib,
+    rc, out = C.sh([sys.executable, os.path.join(C.VERIF, 'tools', 'tr_iosites.py'), lib,
                     os.path.join(wd, 'Gen_iosites.v'), '--json', sites_json], timeout=600)
     if rc != 0 or not os.path.exists(sites_json):
         raise C.BuildFailure('translator tr_iosites failed:\n' + out[-2000:])
@@ -431,7 +439,13 @@ def run(ctx):
     proof_ok = ctx.add_proof(pr, CHECKER_CMD)
 
     # ---------------- model predictions for the observed stacks
-    preds, comp_bad = model_predict(wd, [(p['stack'], f['cls']) for p, f in plan]) if pr['ok'] else ({}, [])
+    # (also when a proof broke: the model files may still build, and the predictions locate the loss)
+    try:
+        preds, comp_bad = model_predict(wd, [(p['stack'], f['cls']) for p, f in plan])
+    except C.BuildFailure as e:
+        if pr['ok']:
+            raise
+        preds, comp_bad = {}, []
     for cb in comp_bad[:2]:
         problems.append('composition of the level predictions differs from Fault.predict_all: ' + cb)
 
@@ -621,7 +635,7 @@ def regen(lib=None):
     lib = lib or C.libdir()
     wd = C.scratch('c11g.')
     sj = os.path.join(wd, 'sites.json')
-    rc, out = C.sh([os.sys.executable, os.path.join(C.VERIF, 'tools', 'tr_iosites.py'), lib,
+    rc, out = C.sh([sys.executable, os.path.join(C.VERIF, 'tools', 'tr_iosites.py'), lib,
                     os.path.join(C.COQ, 'Gen_iosites.v'), '--json', sj], timeout=600)
     print(out.strip())
     if rc != 0:
@@ -726,11 +740,11 @@ def regen(lib=None):
     for f in sorted(set(s['func'] for s in io)):
         fid = re.sub(r'[^A-Za-z0-9_]', '_', f)
         o.append('Lemma up_closed_%s : up_closed link_sites "%s" (up_set "%s") = true.' % (fid, f, f))
-        o.append('Proof. vm_compute. reflexivity. Qed.')
+        o.append('Proof. by_vm. Qed.')
         if not any(byid[b]['callee'] in reach_up(f) for b in bad):
             o.append('Lemma no_bad_link_above_%s :' % fid)
             o.append('  forallb (fun l => negb (str_mem (s_callee l) (up_set "%s")) || negb (str_mem (s_id l) bad_link_ids)) link_sites = true.' % f)
-            o.append('Proof. vm_compute. reflexivity. Qed.')
+            o.append('Proof. by_vm. Qed.')
         o.append('')
     for s in io:
         sid = s['id']
@@ -743,32 +757,32 @@ def regen(lib=None):
         if not D and not badup:
             o.append('Lemma nsd_%s : no_silent_drop link_sites %s.' % (nm, S))
             fid = re.sub(r'[^A-Za-z0-9_]', '_', s['func'])
-            o.append('Proof.\n  apply (no_silent_drop_intro %s (up_set "%s")); [vm_compute; reflexivity | exact up_closed_%s | exact no_bad_link_above_%s].\nQed.\n' % (S, s['func'], fid, fid))
+            o.append('Proof.\n  apply (no_silent_drop_intro %s (up_set "%s")); [by_vm | exact up_closed_%s | exact no_bad_link_above_%s].\nQed.\n' % (S, s['func'], fid, fid))
             spec.append('thm no_silent_drop_%s nsd_%s' % (nm, nm))
             continue
         o.append('Lemma nsd_%s_refuted : ~ no_silent_drop link_sites %s.' % (nm, S))
         if D:
             w = 'E_NO_SPACE' if 'E_NO_SPACE' in D else D[0]
-            o.append('Proof. apply (refute_by_class %s %s). vm_compute. reflexivity. Qed.\n' % (S, w))
+            o.append('Proof. apply (refute_by_class %s %s). by_vm. Qed.\n' % (S, w))
         else:
             b = badup[0]
             p = path_to(s['func'], byid[b]['callee'])
             o.append('Proof.\n  apply (refute_by_link %s (sites_of [%s] link_sites) (site_of "%s" link_sites)).' % (
                 S, '; '.join('"%s"' % x for x in p), b))
-            o.append('  - apply site_of_In; vm_compute; reflexivity.\n  - vm_compute; reflexivity.\n  - vm_compute; reflexivity.')
-            o.append('  - apply sites_of_In; vm_compute; reflexivity.\nQed.\n')
+            o.append('  - apply site_of_In; by_vm.\n  - by_vm.\n  - by_vm.')
+            o.append('  - apply sites_of_In; by_vm.\nQed.\n')
         spec.append('thm no_silent_drop_%s_refuted nsd_%s_refuted' % (nm, nm))
         if D:
             o.append('Lemma nsd_%s_drops : drops_classes %s [%s].' % (nm, S, '; '.join(D)))
-            o.append('Proof. apply drops_classes_intro; vm_compute; reflexivity. Qed.\n')
+            o.append('Proof. apply drops_classes_intro; by_vm. Qed.\n')
             spec.append('thm no_silent_drop_%s_drops nsd_%s_drops' % (nm, nm))
         if badup:
             o.append('Lemma nsd_%s_partial : no_silent_drop_except link_sites %s [%s] bad_link_ids.' % (nm, S, '; '.join(D)))
-            o.append('Proof. apply no_silent_drop_except_intro; vm_compute; reflexivity. Qed.\n')
+            o.append('Proof. apply no_silent_drop_except_intro; by_vm. Qed.\n')
         else:
             o.append('Lemma nsd_%s_partial : no_silent_drop_except link_sites %s [%s] [].' % (nm, S, '; '.join(D)))
             fid = re.sub(r'[^A-Za-z0-9_]', '_', s['func'])
-            o.append('Proof.\n  apply (no_silent_drop_except_nolinks_intro %s [%s] (up_set "%s")); [vm_compute; reflexivity | exact up_closed_%s | exact no_bad_link_above_%s].\nQed.\n' % (S, '; '.join(D), s['func'], fid, fid))
+            o.append('Proof.\n  apply (no_silent_drop_except_nolinks_intro %s [%s] (up_set "%s")); [by_vm | exact up_closed_%s | exact no_bad_link_above_%s].\nQed.\n' % (S, '; '.join(D), s['func'], fid, fid))
         spec.append('thm no_silent_drop_%s_partial nsd_%s_partial' % (nm, nm))
     # ---- chains
     ctext = re.search(r'Definition chains : list \(string \* list string\) :=\s*\[(.*?)\]\.\s*\n\s*\(\* the link sites of one hop',
@@ -785,14 +799,14 @@ def regen(lib=None):
         Cn = '(chain_of "%s")' % name
         if badhop is None:
             o.append('Lemma ch_%s : chain_reaches_api link_sites %s.' % (nm, Cn))
-            o.append('Proof. apply chain_reaches_api_intro; [vm_compute; reflexivity | apply forallb_hops_bad; vm_compute; reflexivity]. Qed.\n')
+            o.append('Proof. apply chain_reaches_api_intro; [by_vm | apply forallb_hops_bad; by_vm]. Qed.\n')
             spec.append('thm chain_%s ch_%s' % (nm, nm))
         else:
             k, a, b = badhop
             o.append('Lemma ch_%s_refuted : ~ chain_reaches_api link_sites %s.' % (nm, Cn))
-            o.append('Proof. apply (chain_refute %s %d "%s" "%s"); vm_compute; reflexivity. Qed.\n' % (Cn, k, a, b))
+            o.append('Proof. apply (chain_refute %s %d "%s" "%s"); by_vm. Qed.\n' % (Cn, k, a, b))
             o.append('Lemma ch_%s_partial : chain_reaches_api_except link_sites %s bad_link_ids.' % (nm, Cn))
-            o.append('Proof. apply chain_reaches_api_except_intro; vm_compute; reflexivity. Qed.\n')
+            o.append('Proof. apply chain_reaches_api_except_intro; by_vm. Qed.\n')
             spec.append('thm chain_%s_refuted ch_%s_refuted' % (nm, nm))
             spec.append('thm chain_%s_partial ch_%s_partial' % (nm, nm))
     open(pf, 'w').write(part1 + '\n'.join(o) + '\n')
@@ -800,7 +814,7 @@ def regen(lib=None):
     rc, out = C.sh(['coqc', '-Q', '.', 'Pnc', '-w', '-all', 'Proofs_Fault.v'], cwd=C.COQ, timeout=3000)
     if rc != 0:
         raise SystemExit('coqc Proofs_Fault.v failed:\n' + out[-3000:])
-    rc, out = C.sh([os.sys.executable, os.path.join(C.VERIF, 'tools', 'mkprops.py'), 'C11', os.path.join(C.COQ, 'props', 'C11.spec')],
+    rc, out = C.sh([sys.executable, os.path.join(C.VERIF, 'tools', 'mkprops.py'), 'C11', os.path.join(C.COQ, 'props', 'C11.spec')],
                    cwd=C.VERIF, timeout=3000)
     print(out[-500:])
     rc, out = C.sh(['coqc', '-Q', '.', 'Pnc', '-w', '-all', 'Properties_C11.v'], cwd=C.COQ, timeout=3000)
@@ -809,5 +823,5 @@ def regen(lib=None):
 
 
 if __name__ == '__main__':
-    if '--regen' in os.sys.argv:
-        regen(os.sys.argv[os.sys.argv.index('--lib') + 1] if '--lib' in os.sys.argv else None)
+    if '--regen' in sys.argv:
+        regen(sys.argv[sys.argv.index('--lib') + 1] if '--lib' in sys.argv else None)
